@@ -251,7 +251,18 @@ inline void runC07(Ctx &c)
             {
                 // the judged evaluation is not the first one on this optimizer / workspace
                 VectorXd xPrev = genDecisionVector(r, oc, rig), gPrev;
-                (void)rig.opt->evaluate(xPrev, gPrev, oc.prog, eo);
+                const bool other = r.coin();
+                if (other)
+                {
+                    rig.opt->setRho(r.coin() ? 0.0 : r.uni(0.05, 1.0));
+                    rig.opt->setSteps(r.range(1, 20));
+                }
+                (void)rig.opt->evaluate(r.coin(0.2) ? x : xPrev, gPrev, oc.prog, eo);
+                if (other)
+                {
+                    rig.opt->setRho(oc.rho);
+                    rig.opt->setSteps(oc.K);
+                }
                 c.event("evaluation.on_used_workspace");
             }
             double cost = rig.opt->evaluate(x, grad, oc.prog, eo);
@@ -314,7 +325,18 @@ inline void runC08(Ctx &c)
             if (r.coin(0.5))
             {
                 VectorXd xPrev = genDecisionVector(r, oc, rig), gPrev;
-                (void)rig.opt->evaluate(xPrev, gPrev, oc.prog, eo); // not recorded
+                const bool other = r.coin();
+                if (other)
+                {
+                    rig.opt->setRho(r.coin() ? 0.0 : r.uni(0.05, 1.0));
+                    rig.opt->setSteps(r.range(1, 20));
+                }
+                (void)rig.opt->evaluate(r.coin(0.2) ? x : xPrev, gPrev, oc.prog, eo); // not recorded
+                if (other)
+                {
+                    rig.opt->setRho(oc.rho);
+                    rig.opt->setSteps(oc.K);
+                }
                 c.event("evaluation.on_used_workspace");
             }
             double cost = rig.opt->evaluate(x, grad, prog, eo);
@@ -508,6 +530,16 @@ inline void c09CheckConfig(Ctx &c, OptCase &oc, OptRig &rig, Rng &r, bool fullPr
     // an arbitrary decision vector: decoded quantities as the functors and the exposed spline see them
     VectorXd x = genDecisionVector(r, oc, rig);
     VectorXd grad;
+    if (r.coin(0.4))
+    {
+        // another (caller-owned) workspace is used first after the reconfiguration
+        EvalOpts eo;
+        eo.ws = rig.env->newWorkspace();
+        VectorXd xo = genDecisionVector(r, oc, rig), go;
+        (void)rig.opt->evaluate(xo, go, oc.prog, eo);
+        rig.env->freeWorkspace(eo.ws);
+        c.event("external_workspace_used_first");
+    }
     Decoded base = observeDecoded(oc, rig, x, &grad);
     if (!c.require("C09.observation_available", base.ok, okey(oc, "observe"), how))
         return;
